@@ -783,3 +783,13 @@ func ShrinkSlice[T any](items []T, fails func([]T) bool) []T {
 	}
 	return cur
 }
+
+var shrinkCount = map[string]int{}
+
+// ShrinkAllowed limits the (expensive) minimisation work per worker process:
+// the first few violations of each signature are minimised, the rest are
+// reported as found. Keeps checks fast on trees that violate massively.
+func ShrinkAllowed(sig string) bool {
+	shrinkCount[sig]++
+	return shrinkCount[sig] <= 2 && len(shrinkCount) <= 12
+}
